@@ -105,6 +105,11 @@ func (p *MetadataPersister) UpsertHeader(ctx context.Context, dbhdr *config.Head
 	hdr := *idbhdr
 	if !initializing {
 		hdr.Name = p.getSanitizedPath(ctx, idbhdr.Name)
+
+		// The path of a link is looked up in its sanitized form, so it has to be stored in that form too
+		if idbhdr.Linkname != "" {
+			hdr.Linkname = p.getSanitizedPath(ctx, idbhdr.Linkname)
+		}
 	}
 
 	if _, err := models.Headers(
